@@ -19,7 +19,7 @@ RULE = (
     "on Ok and non-Ok views and UpdateFromText of the result; UpdateFromText with token-soup texts built from the struct's field names), write-generator modules "
     "(CouldWriteValue/TryToWrite sequences with boundary values, incl. truncated buffers) and copy/equals scripts (TryToCopyFrom between views of different "
     "lengths and overlapping windows, Equals once both Ok), all built with clang++ -O1 -fsanitize=address,undefined -fno-sanitize-recover=all and runtime checks "
-    "enabled. Oracle: no sanitizer report, no EMBOSS_CHECK/assert abort, no signal. Non-trivial = script on a view with Ok()==false with >= 3 further checked "
+    "enabled; plus a coverage-guided tier: one libFuzzer target per module (testdata and generated) whose input selects structure, parameters and buffer and which calls every checked member (reads after Ok, writes of read values, text output/input, copies, equality, aligned views). Oracle: no sanitizer report, no EMBOSS_CHECK/assert abort, no signal. Non-trivial = script on a view with Ok()==false with >= 3 further checked "
     "calls, or a successful write followed by re-observation; distinct by (module, command)."
 )
 
@@ -141,6 +141,109 @@ def run_group(ctx, stats, cases, tag):
     shutil.rmtree(root, ignore_errors=True)
 
 
+FUZZ_FLAGS = ["clang++", "-std=c++14", "-O1", "-g", "-w", "-fsanitize=fuzzer,address,undefined", "-fno-sanitize-recover=all", "-fno-omit-frame-pointer"]
+
+
+def fuzz_case(kind, files, main):
+    from cppfarm import irdriver
+
+    r = emb.compile_files(files, main=main)
+    if not r.accepted:
+        return None
+    out = {main + ".h": r.header}
+    for m in r.ir.module:
+        nm = m.source_file_name
+        if nm in ("", main):
+            continue
+        ri = emb.compile_files(files, main=nm)
+        if not ri.accepted:
+            return None
+        out[nm + ".h"] = ri.header
+    src, entries = irdriver.IrDriver(r.ir, text=True, deep=False).fuzz_source(main + ".h")
+    if not entries:
+        return None
+    out["fuzz.cc"] = src
+    return {"kind": kind, "files": files, "main": main, "build": out}
+
+
+def fuzz_tier(ctx, stats):
+    """Coverage-guided tier: one libFuzzer target per module (repository testdata and generated
+    layout modules), built with ASan+UBSan; the input is (structure selector, parameters, second
+    buffer length, buffer bytes); every checked member is called on it.  Empty starting corpus and a
+    corpus of a few zero/ones buffers; -runs and -seed fixed, so only a saved crashing input is the
+    reproducible unit."""
+    import subprocess, concurrent.futures as cf
+
+    rnd = random.Random(ctx.seed * 99991 + 3)
+    corp = emb.corpus()
+    names = [n for n in sorted(corp) if n.startswith("testdata/") and "/format/" not in n and "/golden/" not in n]
+    n_corpus, n_gen, runs = ctx.pick((3, 3, 20000), (len(names), 24, 300000))
+    picks = rnd.sample(names, min(n_corpus, len(names)))
+    cases = [fuzz_case("corpus", dict(corp), n) for n in picks]
+    for _ in range(n_gen):
+        m, feats = semgen.layout_module(random.Random(rnd.randrange(2**62)))
+        cases.append(fuzz_case("layout", {"m.emb": semgen.module_text(m)}, "m.emb"))
+    cases = [c for c in cases if c]
+    root = os.path.join(ctx.tmp, "fuzz")
+    for i, c in enumerate(cases):
+        c["dir"] = os.path.join(root, "f%d" % i)
+        farm.write_files(c["dir"], c["build"])
+        os.makedirs(os.path.join(c["dir"], "corpus"), exist_ok=True)
+        for j, b in enumerate([bytes(40), bytes([0, 1, 2, 3, 4, 16]) + bytes([0xFF]) * 40, bytes(range(6, 70))]):
+            with open(os.path.join(c["dir"], "corpus", "s%d" % j), "wb") as f:
+                f.write(b)
+    builds = farm.build_all([(c["dir"], "fuzz.cc", "fuzz", FUZZ_FLAGS, []) for c in cases])
+    live = []
+    for c, (d, ok, err) in zip(cases, builds):
+        if not ok:
+            first = next((l for l in err.split("\n") if "error" in l), err[:200])
+            stats.fail({"kind": "does-not-compile-with-clang", "msg": re.sub(r"[0-9]+", "N", first)[-100:]}, {"files": c["files"], "main": c["main"]}, err[-3000:])
+        else:
+            live.append(c)
+
+    def run_one(c):
+        env = dict(os.environ, ASAN_OPTIONS="detect_leaks=0:allocator_may_return_null=1", UBSAN_OPTIONS="print_stacktrace=1:halt_on_error=1")
+        seed = (ctx.seed % 2**31) or 1
+        out = []
+        for corpus in ("corpus", None):  # with the small valid-looking corpus, and from nothing
+            args = [os.path.join(c["dir"], "fuzz"), "-runs=%d" % (runs // 2), "-seed=%d" % seed, "-max_len=160", "-artifact_prefix=%s/" % c["dir"], "-print_final_stats=1", "-verbosity=0"]
+            if corpus:
+                args.append(os.path.join(c["dir"], corpus))
+            try:
+                p = subprocess.run(args, capture_output=True, text=True, timeout=3600, env=env, errors="replace", cwd=c["dir"])
+            except subprocess.TimeoutExpired:
+                out.append((None, "timeout", ""))
+                continue
+            out.append((p.returncode, p.stderr[-6000:], corpus or "empty"))
+        return out
+
+    with cf.ThreadPoolExecutor(max_workers=int(os.environ.get("VERIF_PROCS", "16"))) as ex:
+        results = list(ex.map(run_one, live))
+    total_execs = 0
+    for c, outs in zip(live, results):
+        for rc, err, corpus in outs:
+            mm = re.search(r"stat::number_of_executed_units:\s*(\d+)", err or "")
+            execs = int(mm.group(1)) if mm else 0
+            total_execs += execs
+            stats.case([c["files"], "fuzz", corpus], True, ["fuzz:" + c["kind"], "fuzz-corpus:" + str(corpus)], sample={"kind": "libFuzzer target", "module_head": c["files"][c["main"]][:200], "executions": execs, "corpus": corpus} if execs else None)
+            if rc not in (0, None):
+                m1 = re.search(r"runtime error: ([^\n]*)", err)
+                m2 = re.search(r"AddressSanitizer: ([a-z-]+)", err)
+                m3 = re.search(r"Assertion `([^']*)' failed", err)
+                what = ("ubsan: " + re.sub(r"[0-9]+", "N", m1.group(1))[:80]) if m1 else ("asan: " + m2.group(1)) if m2 else ("check-failed: " + m3.group(1)[:80]) if m3 else "exit %s" % rc
+                where = re.search(r"(emboss_[a-z_]+\.h|\.emb\.h):(\d+)", err)
+                crash = None
+                for fn in sorted(os.listdir(c["dir"])):
+                    if fn.startswith(("crash-", "oom-", "timeout-")):
+                        with open(os.path.join(c["dir"], fn), "rb") as f:
+                            crash = f.read().hex()
+                        break
+                stats.fail({"kind": "unsafe-checked-call", "what": what, "where": (where.group(1) if where else "?"), "cmd": "fuzz"}, {"files": c["files"], "main": c["main"], "input_hex": crash}, "libFuzzer target (%s corpus)\n%s" % (corpus, err[-2500:]))
+    stats.extra["libfuzzer_executions"] = total_execs
+    stats.extra["libfuzzer_targets"] = len(live)
+    shutil.rmtree(root, ignore_errors=True)
+
+
 def run(ctx):
     ctx.rule = RULE
     ctx.assumptions = [
@@ -149,6 +252,10 @@ def run(ctx):
         "Read() is only called after Ok(), Equals only when both views are Ok, element access only below ElementCount()",
     ]
     stats = vlib.Stats()
+    if os.environ.get("VERIF_C04_ONLY") == "fuzz":  # development aid: the coverage-guided tier alone
+        fuzz_tier(ctx, stats)
+        ctx.stats = stats
+        return ctx.finish(None)
     rnd = random.Random(ctx.seed * 67867967 + 13)
     n1, n2, n3 = ctx.pick((14, 8, 8), (160, 80, 80))
     run_group(ctx, stats, [layout_case(rnd.randrange(2**62), ctx.pick(3, 5), ctx.pick(10, 20)) for _ in range(n1)] + [layout_case(("stride-family", k, ctx.seed), 3, 10) for k in range(ctx.pick(3, 16))], "lay")
@@ -166,6 +273,7 @@ def run(ctx):
             c["kind"] = "copy-equals"
         ccases.append(c)
     run_group(ctx, stats, ccases, "ce")
+    fuzz_tier(ctx, stats)
     ctx.stats = stats
     return ctx.finish(None)
 
